@@ -150,6 +150,7 @@ fn history(ctx: &Ctx, rng: &mut Rng, rep: &mut Report, params: &vcore::bundlegen
     let mut accepted: Vec<(Vec<SpendBundle>, u64)> = vec![];
     let mut log: Vec<Value> = vec![];
     let mut all_truthful = true;
+    let mut byte_contrib: std::collections::HashMap<usize, u64> = std::collections::HashMap::new();
     let mut last_cost_estimate = builder.cost();
     let long = rng.chance(1, 5);
     let steps = 1 + rng.usize(if long { 40 } else { 12 });
@@ -162,9 +163,12 @@ fn history(ctx: &Ctx, rng: &mut Rng, rep: &mut Report, params: &vcore::bundlegen
             _ => 3,
         };
         let mut batch: Vec<SpendBundle> = vec![];
+        let mut batch_idx: Vec<usize> = vec![];
         let mut truthful: Option<u64> = Some(0);
         for _ in 0..k {
-            let it = &pool[rng.usize(pool.len())];
+            let pi = rng.usize(pool.len());
+            batch_idx.push(pi);
+            let it = &pool[pi];
             batch.push(it.sb.clone());
             truthful = match (truthful, it.truthful) {
                 (Some(a), Some(b)) => Some(a + b),
@@ -178,7 +182,42 @@ fn history(ctx: &Ctx, rng: &mut Rng, rep: &mut Report, params: &vcore::bundlegen
             truthful = None;
         }
         let remaining = consts.max_block_cost_clvm.saturating_sub(builder.cost());
-        let (declared, kind) = match rng.below(12) {
+        // byte cost this batch added the last time its bundles were accepted (learned from cost() deltas):
+        // lets a declared cost be chosen so that the estimate AFTER the add lands within a hair of the limit
+        let learned: Option<u64> = if mid_error || batch_idx.is_empty() {
+            None
+        } else {
+            batch_idx.iter().map(|i| byte_contrib.get(i).copied()).sum::<Option<u64>>()
+        };
+        // the interned builder's estimate for a spend is a function of the spend alone
+        // (interned size of (parent puzzle amount solution) plus one cons): the model predicts it
+        let learned = learned.or_else(|| {
+            if !interned || mid_error || batch.is_empty() {
+                return None;
+            }
+            let mut v = 0u64;
+            for sb in &batch {
+                for cs in &sb.coin_spends {
+                    let (p, _) = Sx::deserialize(cs.puzzle_reveal.as_slice())?;
+                    let (so, _) = Sx::deserialize(cs.solution.as_slice())?;
+                    let item = Sx::list(&[
+                        Sx::atom(cs.coin.parent_coin_info.as_slice()),
+                        p,
+                        Sx::atom(&vcore::ints::minimal_be_u64(cs.coin.amount)),
+                        so,
+                    ]);
+                    v += item.interned_vbytes() + 3;
+                }
+            }
+            Some(v * consts.cost_per_byte)
+        });
+        let cost_before = builder.cost();
+        let (declared, kind) = match rng.below(14) {
+            12 | 13 if learned.is_some() => {
+                let delta = rng.below(400_001) as i64 - 200_000;
+                let base = remaining.saturating_sub(learned.unwrap()) as i64;
+                ((base + delta).max(0) as u64, "tight-fit-after-add")
+            }
             0 => (remaining, "exactly-remaining"),
             1 => (remaining.saturating_sub(1), "remaining-1"),
             2 => (remaining.saturating_add(1), "remaining+1"),
@@ -211,8 +250,15 @@ fn history(ctx: &Ctx, rng: &mut Rng, rep: &mut Report, params: &vcore::bundlegen
             Ok(Ok(a)) => a,
         };
         log.push(json!({"batch": batch.len(), "declared": declared, "kind": kind, "added": added, "cost_after": builder.cost(), "mid_error": mid_error}));
+        if added && batch_idx.len() == 1 && !mid_error {
+            byte_contrib.insert(batch_idx[0], builder.cost().saturating_sub(cost_before).saturating_sub(declared));
+        }
         if added {
             rep.count("add:accepted");
+            let slack = consts.max_block_cost_clvm as i128 - builder.cost() as i128;
+            if slack.abs() <= 200_000 {
+                rep.count("add:accepted-within-200k-of-limit");
+            }
             if declared == remaining || kind == "exactly-remaining" {
                 rep.count("add:accepted-landing-on-limit");
             }
